@@ -98,6 +98,20 @@ def finding_probes():
         rep = True
     out.append(("roundtrip:omitted-bytes-default", rep,
                 "schemaless_writer(fo, record{b: bytes default '\\u00ff'}, {}) must write the default"))
+    # a mapping datum that conforms to a record branch AND (because validation ignores extra keys) to a
+    # later map branch is written under the map branch and loses keys
+    u = [{"type": "record", "name": "R0", "fields": [{"name": "f0", "type": {"type": "map", "values": "null"}, "default": {}}]},
+         {"type": "map", "values": "R0"}]
+    d = {"f0": {"k0": None}}
+    try:
+        fo = io.BytesIO()
+        F.schemaless_writer(fo, u, d)
+        fo.seek(0)
+        rep2 = F.schemaless_reader(fo, u) != d
+    except Exception:  # noqa
+        rep2 = True
+    out.append(("roundtrip:union-map-branch-wins-over-matching-record", rep2,
+                "[R0{f0: map<null> default {}}, map<R0>] with {'f0': {'k0': None}} must read back unchanged"))
     return out
 
 
